@@ -734,6 +734,32 @@ def work(arg):
                     total += 1
                     cls, bad, calls = probe(m, fn=handshake_entry(hs))
                     fold(acc, "entry:" + cls, bad, {"family": "crafted-entry", "name": name, "msg": hs})
+    if kind == "crafted" and k == 0:
+        # the compressed entry point Serializable.loadz: a gzip member that inflates far beyond its size (a short message -
+        # valid, refused at once, at the string limit - followed by a long compressible tail inside the same member), plus
+        # truncations and bit flips of an honest dumpz().  The bound is on the COMPRESSED size, which is the input.
+        import gzip as _gzip
+        H = lambda x: struct.pack(">H", x)  # noqa
+        heads = [("valid-seq", H(16) + H(3) + struct.pack(">b", 3) + (H(3) + b"\x01") * 3), ("unknown-id", H(0x7777)),
+                 ("str-64k", H(13) + H(5) + struct.pack(">l", 2 ** 16) + b"a" * (2 ** 16)), ("empty", b"")]
+        tails = (2 ** 20, 2 ** 24) if _TIER == "quick" else (2 ** 20, 2 ** 24, 96 * 2 ** 20)
+        for hname, head in heads:
+            for tail in tails:
+                for fill in (b"\x00", b"\x00\x0f"):
+                    z = _gzip.compress(head + fill * (tail // len(fill)), 9)
+                    total += 1
+                    cls, bad, calls = probe(z, fn=Serializable.loadz, mem=True)
+                    fold(acc, "loadz:" + cls, bad, {"family": "loadz", "head": hname, "tail": tail, "fill": fill.hex()})
+        honest = c13.C13Three(a=[1, "x"], b={"k": 2}, c=None).dumpz()
+        for cut in range(0, len(honest)):
+            total += 1
+            cls, bad, calls = probe(honest[:cut], fn=Serializable.loadz, mem=True)
+            fold(acc, "loadz:" + cls, bad, {"family": "loadz-truncated", "cut": cut})
+        for i in range(len(honest)):
+            for bit in (0, 5):
+                total += 1
+                cls, bad, calls = probe(honest[:i] + bytes([honest[i] ^ (1 << bit)]) + honest[i + 1:], fn=Serializable.loadz, mem=True)
+                fold(acc, "loadz:" + cls, bad, {"family": "loadz-bitflip", "i": i, "bit": bit})
     # canary: whatever the hostile inputs of this work item did to the process (registries, caches, counters), honest encodings
     # still decode to what they decoded to before, and the class registry is what it was
     bad = canary_check()
@@ -789,7 +815,7 @@ def run(tier, seed):
     rep.coverage = {
         "evaluations": total, "distinct_nontrivial": sum(v for k, v in classes.items() if k == "value" or k.endswith(":value")),
         "rule": "families: all truncations + bit flips of every C13 encoding <=36 (quick) / 64 (thorough) bytes; every token sequence of length <=%d over %d tokens; truncations/bit flips/padding edits of the three handshake messages "
-                "through loadb and the real _recv* entry points; %d crafted inputs (nesting, extreme lengths, bad field counts) with a tracemalloc bound; registry in effect: a foreign class / enum id at every position of every container shape of depth <=3, decoded with a whitelist registry and with a remapping registry; a valid client hello with a version blob of every size 0..P+40 nested in a sequence / set / map announcing 16384 elements; records of every id in the class registry (id alone, field count 0 / 1 / one too few) alone and n times in a sequence / set / map values / map keys / nested sequences / the version field of a client hello, through loadb and _recvClientHello, with a tracemalloc bound and a bound on the values the result holds. non-trivial = inputs that decoded to a value (all others raised)" % (
+                "through loadb and the real _recv* entry points; %d crafted inputs (nesting, extreme lengths, bad field counts) with a tracemalloc bound; registry in effect: a foreign class / enum id at every position of every container shape of depth <=3, decoded with a whitelist registry and with a remapping registry; a valid client hello with a version blob of every size 0..P+40 nested in a sequence / set / map announcing 16384 elements; records of every id in the class registry (id alone, field count 0 / 1 / one too few) alone and n times in a sequence / set / map values / map keys / nested sequences / the version field of a client hello, through loadb and _recvClientHello, with a tracemalloc bound and a bound on the values the result holds; Serializable.loadz on gzip members that inflate to 1 MiB / 16 MiB (thorough 96 MiB) behind a short message, and every truncation / two bit flips per byte of an honest dumpz(). non-trivial = inputs that decoded to a value (all others raised)" % (
                     4 if tier == "quick" else 5, len(tokens()), len(crafted())),
         "outcome_classes": dict(classes), "max_calls_per_byte_observed": round(maxratio, 2),
         "bounds": {"calls": "%d*len+%d" % (CALLS_PER_BYTE, CALLS_BASE), "memory(crafted only)": "%d*len+%d" % (MEM_PER_BYTE, MEM_BASE),
